@@ -67,6 +67,7 @@ def run(model, rep, tier):
     r4_seed_propagation(ctx, rep)
     r5_seed_reported(ctx, rep)
     r7_mode_independent(ctx, rep)
+    r8_given_seed_is_used(ctx, rep)
     rep.units['cfg'] = ctx.cfg_stats
 
 
@@ -476,7 +477,18 @@ def r5_seed_reported(ctx, rep, R='C11.R5'):
                 vals = [x for x in local_assignments(init.node).get(v.id, []) if isinstance(x, ast.AST)]
             else:
                 vals = [v]
+            flat = []
             for x in vals:
+                todo = [x]
+                while todo:
+                    y = todo.pop()
+                    if isinstance(y, ast.BoolOp):
+                        todo += y.values
+                    elif isinstance(y, ast.IfExp):
+                        todo += [y.body, y.orelse]
+                    else:
+                        flat.append(y)
+            for x in flat:
                 if (dotted(x) or '').endswith('shuffle_seed') or dotted(x) == 'self.seed':
                     continue                      # the user's --shuffle-seed (type=int) / a copy
                 n += 1
@@ -519,6 +531,149 @@ def _int_typed(ctx, fi, e):
     if isinstance(e, ast.UnaryOp) and isinstance(e.op, (ast.USub, ast.UAdd, ast.Invert)):
         return _int_typed(ctx, fi, e.operand)
     return None
+
+
+# ---------------------------------------------------------------------------------------------
+# R8 -- an explicitly given seed is the seed that is used, for every integer
+
+def r8_given_seed_is_used(ctx, rep, R='C11.R8'):
+    rep.rule(R, 'an explicitly given seed is used as it is, for every integer ("re-running with the '
+             'reported seed reproduces the order"): abstract interpretation of Shuffle.__init__ over '
+             'options.shuffle_seed in {None, 0, non-zero}: self.seed ends up as the given value in '
+             'the last two cases (a truthiness test instead of "is None" loses the seed 0), and as a '
+             'derived, non-None value in the first')
+    init = ctx.model.func('shuffle.Shuffle.__init__')
+    IN = 'options.shuffle_seed'
+
+    def is_in(d):
+        return d is not None and (d == IN or d.endswith('.' + IN))
+
+    class Undecided(Exception):
+        pass
+
+    def truth(v):
+        # v: ('in', kind) / 'derived' / 'none' / ('const', value) / 'other'
+        if v == 'none':
+            return False
+        if v == 'derived':
+            return True          # int(time.time() * 256) and the like: never 0 in practice
+        if isinstance(v, tuple) and v[0] == 'in':
+            return {'NONE': False, 'ZERO': False, 'NONZERO': True}[v[1]]
+        if isinstance(v, tuple) and v[0] == 'const':
+            return bool(v[1])
+        return None
+
+    def isnone(v):
+        if v == 'none':
+            return True
+        if isinstance(v, tuple) and v[0] == 'in':
+            return v[1] == 'NONE'
+        if v == 'derived' or (isinstance(v, tuple) and v[0] == 'const'):
+            return v == ('const', None)
+        return None
+
+    def ev(e, env, kind):
+        d = dotted(e)
+        if d is not None:
+            if d in env:
+                return env[d]
+            if is_in(d):
+                return ('in', kind)
+            return 'other'
+        if isinstance(e, ast.Constant):
+            return 'none' if e.value is None else ('const', e.value)
+        if isinstance(e, ast.BoolOp):
+            vals = [ev(x, env, kind) for x in e.values]
+            for i, v in enumerate(vals):
+                if i == len(vals) - 1:
+                    return v
+                t = truth(v)
+                if t is None:
+                    raise Undecided(norm(e))
+                if t == isinstance(e.op, ast.Or):
+                    return v
+        if isinstance(e, ast.IfExp):
+            c = cond(e.test, env, kind)
+            if c is None:
+                raise Undecided(norm(e.test))
+            return ev(e.body if c else e.orelse, env, kind)
+        if isinstance(e, ast.Call) and call_name(e) == 'int' and len(e.args) == 1 and \
+                isinstance(ev(e.args[0], env, kind), tuple) and ev(e.args[0], env, kind)[0] == 'in' \
+                and kind != 'NONE':
+            return ev(e.args[0], env, kind)
+        if any(isinstance(c, ast.Call) for c in ast.walk(e)):
+            return 'derived'
+        return 'other'
+
+    def cond(t, env, kind):
+        if isinstance(t, ast.UnaryOp) and isinstance(t.op, ast.Not):
+            c = cond(t.operand, env, kind)
+            return None if c is None else not c
+        if isinstance(t, ast.Compare) and len(t.ops) == 1 and isinstance(t.comparators[0], ast.Constant) \
+                and t.comparators[0].value is None and isinstance(t.ops[0], (ast.Is, ast.IsNot, ast.Eq, ast.NotEq)):
+            n = isnone(ev(t.left, env, kind))
+            if n is None:
+                return None
+            return n if isinstance(t.ops[0], (ast.Is, ast.Eq)) else not n
+        if isinstance(t, ast.BoolOp):
+            cs = [cond(x, env, kind) for x in t.values]
+            if any(c is None for c in cs):
+                return None
+            return any(cs) if isinstance(t.op, ast.Or) else all(cs)
+        return truth(ev(t, env, kind))
+
+    def run_block(stmts, env, kind):
+        """returns the list of environments at the end of the block"""
+        envs = [env]
+        for st in stmts:
+            nxt = []
+            for e_ in envs:
+                if isinstance(st, ast.Assign):
+                    v = ev(st.value, e_, kind)
+                    e2 = dict(e_)
+                    for t in st.targets:
+                        if dotted(t):
+                            e2[dotted(t)] = v
+                            if is_in(dotted(t)):
+                                e2[IN] = v
+                    nxt.append(e2)
+                elif isinstance(st, ast.If):
+                    c = cond(st.test, e_, kind)
+                    if c is None:
+                        used = {dotted(x) for x in ast.walk(st.test) if dotted(x)}
+                        if any(is_in(u) or u in e_ for u in used):
+                            raise Undecided(norm(st.test))
+                        nxt += run_block(st.body, dict(e_), kind) + run_block(st.orelse, dict(e_), kind)
+                    else:
+                        nxt += run_block(st.body if c else st.orelse, dict(e_), kind)
+                elif isinstance(st, (ast.Expr, ast.Pass, ast.AnnAssign, ast.Assert)):
+                    nxt.append(e_)
+                else:
+                    raise Undecided(norm(st)[:60])
+            envs = nxt
+        return envs
+
+    bad = []
+    n = 0
+    try:
+        for kind in ('NONE', 'ZERO', 'NONZERO'):
+            for env in run_block(init.node.body, {}, kind):
+                n += 1
+                v = env.get('self.seed')
+                if kind == 'NONE':
+                    if v is None or isnone(v) is not False:
+                        bad.append('no --shuffle-seed: self.seed is %s' % (v,))
+                elif v != ('in', kind):
+                    bad.append('--shuffle-seed %s: self.seed is %s instead of the given value' % (
+                        '0' if kind == 'ZERO' else '<non-zero>', v if v is not None else 'not set'))
+    except Undecided as e:
+        rep.undecide(R, 'Shuffle.__init__: self.seed for every given seed', 'cannot evaluate %s' % e)
+        return
+    rep.check(not bad, R, 'Shuffle.__init__: self.seed is the given --shuffle-seed (0 included), else a '
+              'derived value (%d paths)' % n,
+              '; '.join(bad) + ': the order listed or run with that seed is not the order the seed '
+              'stands for, and differs from invocation to invocation',
+              key='seed:given', func=init.qualname, where=ctx.where(init, init.node))
 
 
 # ---------------------------------------------------------------------------------------------
